@@ -157,8 +157,12 @@ pub fn run_edge_oriented(
     si: &SearchInstance,
 ) -> Result<SearchAlgorithmResult, SearchError> {
     // 1. guard against edge conditions (src==dst, src.dst_v == dst.src_v)
-    let e1_src = si.directed_graph.src_vertex_id(&source)?;
-    let e1_dst = si.directed_graph.dst_vertex_id(&source)?;
+    // vertex roles follow the search direction: a forward search leaves the source edge at its
+    // destination vertex and reaches the target edge at its source vertex, a reverse search
+    // walks against the edges, so the roles swap.
+    let source_edge = si.directed_graph.get_edge(&source)?;
+    let e1_src = direction.terminal_vertex_id(source_edge);
+    let e1_dst = direction.tree_key_vertex_id(source_edge);
     let src_et = EdgeTraversal {
         edge_id: source,
         access_cost: Cost::ZERO,
@@ -180,7 +184,7 @@ pub fn run_edge_oriented(
             for tree in trees.iter_mut() {
                 // the source edge can only become the root branch if its start vertex was not
                 // reached by the search (u-turn, cycle), otherwise the tree would contain a cycle
-                if !tree.contains_key(&e1_dst) && !tree.contains_key(&e1_src) {
+                if e1_src != e1_dst && !tree.contains_key(&e1_dst) && !tree.contains_key(&e1_src) {
                     tree.extend([(e1_dst, src_branch.clone())]);
                 }
             }
@@ -195,16 +199,17 @@ pub fn run_edge_oriented(
             Ok(updated)
         }
         Some(target_edge) => {
-            let e2_src = si.directed_graph.src_vertex_id(&target_edge)?;
-            let e2_dst = si.directed_graph.dst_vertex_id(&target_edge)?;
+            let target_edge_ref = si.directed_graph.get_edge(&target_edge)?;
+            let e2_src = direction.terminal_vertex_id(target_edge_ref);
+            let e2_dst = direction.tree_key_vertex_id(target_edge_ref);
 
             if source == target_edge {
                 Ok(SearchAlgorithmResult::default())
             } else if e1_dst == e2_src {
                 // route is simply source -> target
                 let init_state = si.state_model.initial_state()?;
-                let src_et = EdgeTraversal::forward_traversal(source, None, &init_state, si)?;
-                let dst_et = EdgeTraversal::forward_traversal(
+                let src_et = direction.perform_edge_traversal(source, None, &init_state, si)?;
+                let dst_et = direction.perform_edge_traversal(
                     target_edge,
                     Some(source),
                     &src_et.result_state,
@@ -218,7 +223,15 @@ pub fn run_edge_oriented(
                     terminal_vertex: e1_src,
                     edge_traversal: src_et.clone(),
                 };
-                let tree = HashMap::from([(e2_dst, src_traversal), (e1_dst, dst_traversal)]);
+                // a branch is only recorded if it does not lead back to a vertex already on the
+                // path (self loop, u-turn), otherwise the tree would contain a cycle
+                let mut tree = HashMap::new();
+                if e1_dst != e1_src {
+                    tree.insert(e1_dst, dst_traversal);
+                }
+                if e2_dst != e1_src && e2_dst != e1_dst {
+                    tree.insert(e2_dst, src_traversal);
+                }
                 let route = vec![src_et, dst_et];
                 let result = SearchAlgorithmResult {
                     trees: vec![tree],
